@@ -365,19 +365,19 @@ pub struct ProgCfg {
 /// stream is polled by hand), so whatever it holds — guards, yielded guards, items that were handed a lock — is released by the
 /// end of the program and nobody waits for it forever.
 pub fn gen_stream_program(rng: &mut Rng, c: &ProgCfg) -> Vec<Stmt> {
-    let len = rng.range(3, c.max_stmts.max(3) + 2) as usize;
+    let len = rng.range(5, c.max_stmts.max(5) + 5) as usize;
     let mut p: Vec<Stmt> = Vec::new();
     let mut nlocks = 0usize;
     let mut held: Vec<usize> = Vec::new();
     let try_vars = [Variant::T, Variant::To, Variant::Ta, Variant::Tao];
     // some entries of its own first
-    let setup = rng.below(3);
+    let setup = 1 + rng.below(3);
     for _ in 0..setup {
         let k = rng.below(c.nkeys as u64) as u32;
         p.push(Stmt::Lock { var: rng.pick(&try_vars), k, soft: None });
         let slot = nlocks;
         nlocks += 1;
-        if rng.pct(80) {
+        if rng.pct(90) {
             p.push(Stmt::Op(slot, GOp::Insert(rng.range(1, 9) as u32)));
         }
         if rng.pct(70) {
